@@ -232,7 +232,7 @@ func genItem(t *kernel.Tape, depth int) Item {
 
 // genUseLeaf draws one use of a script, css class or once handle.
 func genUseLeaf(t *kernel.Tape, ext map[*Node]*nodeExt, nOnce int) *Node {
-	uses := []string{"rawscript", "usescript", "onclick", "ontwo", "oncond", "onhx", "classof", "classtwo", "classcond", "oncemark", "oncewith", "lit", "text"}
+	uses := []string{"rawscript", "rawscript", "text", "usescript", "onclick", "ontwo", "oncond", "onhx", "classof", "classtwo", "classcond", "oncemark", "oncewith", "lit", "text"}
 	k := uses[t.Choose(len(uses), "usekind")]
 	n := &Node{K: k, N: t.Choose(16, "n"), B: t.Bool("b")}
 	x := &nodeExt{M: t.Choose(16, "m")}
@@ -579,8 +579,8 @@ func c12World(rc *kernel.RunCtx) {
 	var ctxs []*c12ctx
 	for i := 0; i < nctx; i++ {
 		c := &c12ctx{name: fmt.Sprintf("ctx#%d", i), nonce: t.Chance(1, 3, "nonce"), viaMW: middleware, cancelAt: -1}
-		if middleware && t.Chance(1, 4, "client-leaves-mid-render") {
-			c.cancelAt = t.Choose(5, "cancel-at")
+		if middleware && t.Chance(2, 5, "client-leaves-mid-render") {
+			c.cancelAt = t.Choose(3, "cancel-at")
 		}
 		nr := t.Range(1, 3, "renders-in-context")
 		if middleware {
